@@ -171,6 +171,8 @@ impl C02 {
         fams.add("fn-of-power", vec![FN6.len() as u64, POWFORMS.len() as u64, n]);
         // unit lists of 3 and 4 members with one member of another dimensionality at every position
         fams.add("longer unit lists with one foreign member", vec![LISTFORMS.len() as u64, n, n]);
+        // unit powers built up to the edge of the exponent type, then added/negated/multiplied
+        fams.add("powers near the range of the exponent type", vec![EDGE_UNITS.len() as u64, EDGE_POWERS.len() as u64, EDGE_FORMS.len() as u64]);
         C02 {
             fams,
             reps,
@@ -324,6 +326,27 @@ impl C02 {
                 };
                 (format!("{}({})", k, arg), want, false)
             }
+            5 => {
+                let u = EDGE_UNITS[d[0] as usize];
+                let (ptext, p) = EDGE_POWERS[d[1] as usize];
+                let (form, mult) = EDGE_FORMS[d[2] as usize];
+                let x = ptext.replace("{u}", u);
+                let q = form.replace("{x}", &x);
+                // exact exponent in wide arithmetic; every intermediate of these forms is a prefix
+                // multiple of p, so the final one is the largest
+                let e = p * mult as i128;
+                let want = if mult == 0 {
+                    Want::Either(Dims::new())
+                } else if e.unsigned_abs() <= i64::MAX as u128 {
+                    let mut dd = Dims::new();
+                    dd.insert(u.to_string(), e as i64);
+                    // a calculator may refuse powers this large, but never answer with another one
+                    Want::Either(dd)
+                } else {
+                    Want::Refuse
+                };
+                (q, want, false)
+            }
             4 => {
                 let ra = &self.reps[d[1] as usize];
                 let rb = &self.reps[d[2] as usize];
@@ -378,6 +401,40 @@ impl C02 {
     }
 }
 
+const EDGE_UNITS: [&str; 3] = ["m", "s", "kg"];
+/// (text, exact exponent)
+const EDGE_POWERS: [(&str, i128); 9] = [
+    ("(({u}^2147483647)^1073741824)", 2147483647 * 1073741824),
+    ("(({u}^-2147483647)^1073741824)", -2147483647 * 1073741824),
+    ("(({u}^2147483647)^1073741823)", 2147483647 * 1073741823),
+    ("(({u}^2147483647)^2147483647)", 2147483647 * 2147483647),
+    ("(({u}^-2147483647)^2147483647)", -2147483647 * 2147483647),
+    ("((({u}^-2097152)^2097152)^524288)", -(1 << 61)),
+    ("((({u}^-2097152)^2097152)^1048576)", -(1 << 62)),
+    ("((({u}^-2097152)^2097152)^2097152)", -(1 << 63)),
+    ("((({u}^2097152)^2097152)^2097151)", (1 << 63) - (1 << 42)),
+];
+/// (form, the multiple of the operand's exponent that the result carries; 0 = cancels)
+const EDGE_FORMS: [(&str, i64); 18] = [
+    ("{x}", 1),
+    ("1/{x}", -1),
+    ("{x}*{x}", 2),
+    ("{x}*{x}*{x}", 3),
+    ("{x}*{x}*{x}*{x}", 4),
+    ("{x} {x} {x} {x}", 4),
+    ("{x}/(1/{x})", 2),
+    ("1/{x}/{x}/{x}/{x}", -4),
+    ("{x}^2", 2),
+    ("{x}^4", 4),
+    ("{x}^-4", -4),
+    ("{x}^-1", -1),
+    ("-{x}", 1),
+    ("{x} + {x}", 1),
+    ("{x}/{x}", 0),
+    ("(2 {x})*(3 {x})", 2),
+    ("1|3 {x}*{x}*{x}", 3),
+    ("({x}*{x})/{x}", 1),
+];
 const LISTFORMS: [&str; 7] = ["a;a;b", "a;b;a", "b;a;a", "a;a;a;b", "a;a;b;a", "a;b;a;a", "b;a;a;a"];
 const FN6: [&str; 6] = ["sin", "cos", "tan", "asin", "acos", "atan"];
 const POWFORMS: [&str; 9] = ["^-3", "^-2", "^-1", "^0", "^2", "^3", "x*x", "1/x", "x x x"];
@@ -399,7 +456,7 @@ impl Space for C02 {
         Meta {
             id: "C02",
             level: "exploration",
-            rule: "10 binary operators/functions (* / juxtaposition | + - mod hypot atan2 unit-list) x 6 coefficient pairs (a zero coefficient on either or both sides: adding nothing is still an addition) x all ordered pairs of one representative unit per distinct dimensionality of the registry (+ two quoted ad-hoc base units + a dimensionless operand); 27 unary/power/root/function applications x {1, -2} coefficient x every unit, base unit and long/prefixed/plural base-unit spelling; both depth-2 shapes x 5x5 operators over an 11-unit core; 6 trigonometric functions x 9 power/reciprocal/product forms (x^-3..x^3, x*x, 1/x, x x x) of every representative unit (an angle squared is not an angle); unit lists of 3 and 4 members with one member of another dimensionality at every position, over all ordered pairs of representatives. Oracle: own exponent-vector algebra on the registry dump. Non-trivial = judged (expected dims or expected refusal defined); distinct by query text".into(),
+            rule: "10 binary operators/functions (* / juxtaposition | + - mod hypot atan2 unit-list) x 6 coefficient pairs (a zero coefficient on either or both sides: adding nothing is still an addition) x all ordered pairs of one representative unit per distinct dimensionality of the registry (+ two quoted ad-hoc base units + a dimensionless operand); 27 unary/power/root/function applications x {1, -2} coefficient x every unit, base unit and long/prefixed/plural base-unit spelling; both depth-2 shapes x 5x5 operators over an 11-unit core; 6 trigonometric functions x 9 power/reciprocal/product forms (x^-3..x^3, x*x, 1/x, x x x) of every representative unit (an angle squared is not an angle); unit lists of 3 and 4 members with one member of another dimensionality at every position, over all ordered pairs of representatives; 3 base units x 9 exponents of magnitude 2^61..2^63 built by nested powers x 18 product/quotient/power/negation forms, where the exact exponent is computed in 128-bit arithmetic (a refusal is accepted, another exponent or a missing unit is not, and a result beyond i64 must be refused). Oracle: own exponent-vector algebra on the registry dump. Non-trivial = judged (expected dims or expected refusal defined); distinct by query text".into(),
             assumptions: vec![
                 "the registry dump (C08 validates it) gives each unit's dimensionality".into(),
                 "exp/ln/log/hyperbolic functions of dimensioned arguments and p/q powers with p != 1 are recorded, not judged (the statement gives no rule)".into(),
